@@ -56,12 +56,21 @@ func (c *Clock) Offset() time.Duration {
 // At converts an offset to a time value.
 func (c *Clock) At(off time.Duration) time.Time { return c.base.Add(off) }
 
+// satAdd adds without wrapping around (the runtime's timers saturate as well:
+// a timer set for the largest Duration does not fire in the past).
+func satAdd(a, d time.Duration) time.Duration {
+	if d > 0 && a > 0 && a+d < a {
+		return time.Duration(1<<63 - 1)
+	}
+	return a + d
+}
+
 // AfterFunc creates an active fake timer.
 func (c *Clock) AfterFunc(d time.Duration, f func()) *Timer {
 	c.mu.Lock()
 	defer c.mu.Unlock()
 	c.nextID++
-	t := &Timer{c: c, ID: c.nextID, f: f, active: true, due: c.offset + d}
+	t := &Timer{c: c, ID: c.nextID, f: f, active: true, due: satAdd(c.offset, d)}
 	c.timers = append(c.timers, t)
 	c.fireDueLocked()
 	return t
@@ -83,7 +92,7 @@ func (t *Timer) Reset(d time.Duration) bool {
 	defer t.c.mu.Unlock()
 	was := t.active
 	t.active = true
-	t.due = t.c.offset + d
+	t.due = satAdd(t.c.offset, d)
 	t.c.fireDueLocked()
 	return was
 }
